@@ -445,6 +445,6 @@ def run(tier, seed):
 MANIFEST = {
     "engine": "G",
     "technique": "stateless model checking of the real upload helper and assisted uploader in one process: connection loss at every call of the client-helper protocol (hence after every ciphertext chunk), all delivery orders / early timers within a deviation bound, resumed and repeated uploads judged against a direct upload",
-    "text": "The real offloaded.Helper, CHKUploadHelper, CHKCiphertextFetcher and the client's AssistedUploader/RemoteEncryptedUploadable talk through the controlled scheduler with 7-byte ciphertext chunks. Upload #1 is explored (connection loss before every protocol call, reordered deliveries, early timers); after an interruption the client reconnects (helper kept running or restarted on its directory) and uploads again; a third upload follows. Caps must equal a direct upload's, every share file's data region must equal an uninterrupted helper upload's, and an already-present file must cause no allocate_buckets/write calls and no ciphertext fetch. Pre-states: empty grid, shares placed by a direct upload, one share missing, and two clients uploading the same file concurrently.",
+    "text": "The real offloaded.Helper, CHKUploadHelper, CHKCiphertextFetcher and the client's AssistedUploader/RemoteEncryptedUploadable talk through the controlled scheduler with 7-byte ciphertext chunks. Upload #1 is explored (connection loss before every protocol call, reordered deliveries, early timers); after an interruption the client reconnects (helper kept running or restarted on its directory) and uploads again; a third upload follows. Caps must equal a direct upload's, every share file's data region must equal an uninterrupted helper upload's, and an already-present file must cause no allocate_buckets/write calls and no ciphertext fetch. Pre-states: empty grid, shares placed by a direct upload, one share missing, and two clients uploading the same file concurrently. A second client arriving after j scheduler steps of the first one's upload, for every j, served as soon as it asks (stagger family); several calls per reactor turn as a further family.",
     "note": "vt/lib_helper.py patches the scheduler instance (late Deferred answers, abandoned requests on connection loss). Bounds d, f in evidence; an answer to a call is handed over as soon as the helper's Deferred fires.",
 }
